@@ -35,7 +35,7 @@ ANCHORS = [
     "acnportal.acnsim.analysis:energy_cost",
     "acnportal.acnsim.analysis:demand_charge",
 ]
-REQUIRED = ["vector_lookups_of_over_1000_periods", "cost_checks_under_another_tariff_in_the_same_process", "sub_second_instants", "vector_lookups_with_periods_of_days_or_months", "lookups_judged", "vector_lookups", "interface_price_vectors", "cost_checks", "regime:wrapped-season",
+REQUIRED = ["same_instant_in_several_zones", "vector_lookups_of_over_1000_periods", "cost_checks_under_another_tariff_in_the_same_process", "sub_second_instants", "vector_lookups_with_periods_of_days_or_months", "lookups_judged", "vector_lookups", "interface_price_vectors", "cost_checks", "regime:wrapped-season",
             "regime:weekend", "regime:weekday", "regime:leap-day"]
 BUDGET_S = {"quick": 240, "thorough": 3000}
 EXHAUSTIVE = {"quick": "all 14 calendar types x every day x boundary instants x 5 files",
@@ -157,9 +157,22 @@ def _run_calendar(case, obs):
                     instants.append(x)
                     obs.ev("sub_second_instants")
         instants.append(d + timedelta(seconds=86399, microseconds=999999))
+        near_season = any((d + timedelta(days=k_)).timetuple()[1:3] in {tuple(x_) for s_ in orc.sched for x_ in (s_["start"], s_["end"])} for k_ in (-1, 0, 1))
+        if day_index % 9 == 0 or near_season:
+            # the same physical instant asked for in several time zones on one tariff object: the answer follows the wall-clock
+            # date and time of the datetime that is passed (a date near a season boundary is another date elsewhere)
+            import pytz
+            import zoneinfo
+            for hh in (1, 19):
+                base_utc = datetime(d.year, d.month, d.day, hh, 30, tzinfo=pytz.utc)
+                for z_ in (pytz.timezone("America/Los_Angeles"), zoneinfo.ZoneInfo("Asia/Tokyo"), pytz.utc, zoneinfo.ZoneInfo("America/New_York"),
+                           pytz.timezone("Pacific/Auckland")):
+                    instants.append(base_utc.astimezone(z_))
+                    obs.ev("same_instant_in_several_zones")
+        day_index += 1
         for i, dt in enumerate(instants):
             n += 1
-            ok = _judge(obs, tar, orc, dt, name, want_demand=(i % 7 == 0))
+            ok = _judge(obs, tar, orc, dt, name, want_demand=(i % 7 == 0 or dt.tzinfo is not None))
             if not ok:
                 bad += 1
                 if bad > 3:
